@@ -105,6 +105,21 @@ theorem app?_setApp_self {c : Cell} {a a' : App} (h : c.app? a'.id = some a) : (
     unfold Cell.app? at h; have := List.find?_some h; simpa using this
   simp [this]
 
+/-- After `setApp x`, the record found for any key is either `x` or what was found before. -/
+theorem setApp_cases {c : Cell} {a a' x : App} {y : Nat} (ha : c.app? y = some a)
+    (hx : (c.setApp x).app? y = some a') : a' = x ∨ a' = a := by
+  rw [app?_setApp, ha] at hx
+  simp only [Option.map_some, Option.some.injEq] at hx
+  rw [← hx]
+  split
+  · exact Or.inl rfl
+  · exact Or.inr rfl
+
+theorem setApp_cases' {c c0 : Cell} {a a' x : App} {y : Nat} (happs : c0.apps = c.apps) (ha : c.app? y = some a)
+    (hx : (c0.setApp x).app? y = some a') : a' = x ∨ a' = a := by
+  have ha0 : c0.app? y = some a := by unfold Cell.app?; rw [happs]; exact ha
+  exact setApp_cases ha0 hx
+
 theorem srv?_setSrv (c : Cell) (s' : Srv) (k : Nat) :
     (c.setSrv s').srv? k = (c.srv? k).map (fun y => if y.id = s'.id then s' else y) := by
   unfold Cell.srv? Cell.setSrv
